@@ -856,9 +856,13 @@ def c16_order(ctx, tr):
     rounds = [r for r in tr.rounds if r['solve_index'] == 1]
     B = None
     for r in rounds:
-        if r.get('fault') is not None or r.get('status') != 'Optimal':
+        # "the first solve that does not reach Optimal": a time-limit stop
+        # with an incumbent is reported as Optimal by PuLP and does not count
+        if r.get('status') != 'Optimal':
             B = r
             break
+    if any(r.get('fault') == 'tl-incumbent' for r in rounds):
+        res['probes']['time-limit-stop-with-incumbent'] = 1
     if B is None:
         want_names = names
     else:
@@ -887,7 +891,7 @@ def c16_order(ctx, tr):
                         ('cutoff-not-with-criterion', n,
                          {'line': l, 'cutoff': e[0]}))
     # (3) extras take effect with their own criterion: lexicographic optimum
-    if B is None and ctx.F:
+    if B is None and ctx.F and not any(r.get('fault') for r in rounds):
         kind, r = outcome(tr)
         if kind == 'optimal' and rm.acceptable(ctx.I, r['matching']):
             kv = ctx.W.key_vector(r['matching'], crit)
